@@ -62,7 +62,9 @@ class SimulationScenario():
         if "points" in dictionary:
             self.points = dictionary["points"]
             if model is not None:
-                self.model.points = self.points
+                # the scenario's points replace the model's graphical functions of the same name, the model keeps its other ones
+                for points_name, points_value in self.points.items():
+                    self.model.points[points_name] = points_value if type(points_value) is list else eval(str(points_value))
         else:
             self.points = {}
 
